@@ -291,6 +291,10 @@ pub enum Op {
     /// Declare variable with var (hoisted): env.define_var(name, r[init])
     DeclareVarHoisted { name: ConstantIndex, init: Register },
 
+    /// A `let`/`const` name of the block that starts here: it exists, uninitialised, until its
+    /// declaration is evaluated (temporal dead zone)
+    DeclareUninitialized { name: ConstantIndex },
+
     /// Declare `name` in the current scope as an alias of the property r[obj][name]
     /// (an exported member of a TypeScript namespace: reads and writes go to the
     /// namespace object, as in `N.x`)
